@@ -1303,6 +1303,18 @@ def _map_iter_next(I, st, it, depth, k):
     r = it.src
     mode = it.kw['mode']
     i = it.pos
+    # hash containers have no defined iteration order: the order is a parameter of the run (identity / reversed /
+    # rotated), B-tree containers iterate in key order (kept sorted on insertion)
+    _, mv = map_at(I, st, r)
+    order = getattr(I, 'map_order', 'id')
+    n = it.kw['end']
+    if mv.kind != 'btree' and order != 'id' and n > 1:
+        perm = list(range(n))
+        if order == 'rev':
+            perm.reverse()
+        elif order == 'rot':
+            perm = perm[1:] + perm[:1]
+        i = perm[it.pos]
     kref = Ref(r.key, r.path + (('mapkey', i),))
     vref = Ref(r.key, r.path + (('mapval', i),))
     if mode in ('set', 'keys'):
@@ -1311,7 +1323,7 @@ def _map_iter_next(I, st, it, depth, k):
         v = vref
     else:
         v = tup(kref, vref)
-    k(st, it.at(i + 1), some(v))
+    k(st, it.at(it.pos + 1), some(v))
 
 
 def install_iter_hooks(I):
